@@ -25,7 +25,7 @@ import copy
 import core
 
 LEVEL = "proof"
-EXTRA_TARGETS = ["model/RArgsTie.vo", "model/RArgsValTie.vo"]
+EXTRA_TARGETS = ["model/RArgsTie.vo", "model/RArgsValTie.vo", "model/RArgsSubTie.vo"]
 
 HEADER = ("From Coq Require Import List ZArith.\nImport ListNotations.\n"
           "From TI Require Import model.RArgs model.RArgsTie.\nOpen Scope nat_scope.\n")
@@ -702,6 +702,211 @@ def ns_boundary_corpus():
 NS_CORPUS = ns_boundary_corpus()
 
 
+# ------------------------------------------------------------------ namespace SUBCLASSES with their own constructor
+# (type "nssub"; model/RArgsSub.v, judged by RArgsSubTie.scheck).  Class table: the associated
+# classes (index c < len(cl)), then the subclasses [base, desc]; desc = ["plain"] | ["preset", kw] |
+# ["renamed", perm] (own parameters p0.. feeding the fields perm[0]..) | ["force", kw].  Env: the
+# shared default instances, then one entry per operation.  Operations: new (through the class's own
+# constructor), upd, raupd, hold (a route that puts the instance into a set and reads it back).
+
+SHEADER = ("From Coq Require Import List ZArith.\nImport ListNotations.\n"
+           "From TI Require Import model.RArgsVal model.RArgsValTie model.RArgsSub model.RArgsSubTie.\n")
+HOLD_ROUTES = ["pos", "or", "ror", "tora", "conv"]
+
+
+def sub_tables(case):
+    ncl = len(case["cl"])
+    base = list(range(ncl)) + [b for b, _ in case["subs"]]
+    descs = [["plain"]] * ncl + [d for _, d in case["subs"]]
+    return base, descs
+
+
+def sub_sim(case_cl, base, descs, env, o):
+    """generator-side guess of the result of an operation ((class index, fields) or None): only
+    used to bias operands and values, never to judge"""
+    k = o["op"]
+    if k == "new":
+        s = o["s"]
+        if s >= len(base):
+            return None
+        c, d = base[s], descs[s]
+        nf = len(case_cl[c])
+        pos, kw = o["pos"], o["kw"]
+        if d[0] == "preset":
+            if pos or kw:
+                return None
+            pos, kw = [], d[1]
+        elif d[0] == "force":
+            if pos:
+                return None
+            kw = list(kw) + list(d[1])
+        elif d[0] == "renamed":
+            perm = d[1]
+            if len(pos) > len(perm) or any(j >= len(perm) or j < len(pos) for j, _ in kw):
+                return None
+            kw = [[perm[j], v] for j, v in list(enumerate(pos)) + [tuple(p) for p in kw]]
+            pos = []
+        if len(pos) > nf or any(j >= nf or j < len(pos) for j, _ in kw):
+            return None
+        f = list(pos) + list(case_cl[c][len(pos):])
+        for j, v in kw:
+            f[j] = v
+        return (s, f)
+    x = env[o["x"]] if o["x"] < len(env) else None
+    if x is None:
+        return None
+    s, f = x
+    c = base[s]
+    if k == "hold":
+        r = o["r"]
+        if any(m >= len(case_cl) for m in r[1:]):
+            return None
+        if (r[0] in ("tora", "conv") and r[1] < c) or (r[0] == "conv" and r[2] < c):
+            return None
+        return x
+    if k == "raupd" and not c <= o["m"] < len(case_cl):
+        return None
+    if any(j >= len(case_cl[c]) for j, _ in o["kw"]):
+        return None
+    f = list(f)
+    for j, v in o["kw"]:
+        f[j] = v
+    return (s, f)
+
+
+def gen_desc(rng, dfl):
+    nf = len(dfl)
+    r = rng.random()
+    if r < 0.15:
+        return ["plain"]
+    if r < 0.45:
+        js = rng.sample(range(nf), rng.randint(0, nf))
+        kw = [[j, gen_val(rng, (dfl[j],))] for j in js]
+        if rng.random() < 0.05:
+            kw.append([nf + rng.randrange(N_UNKNOWN_NAMES), gen_val(rng)])
+        return ["preset", kw]
+    if r < 0.8:
+        perm = list(range(nf))
+        rng.shuffle(perm)
+        q = rng.random()
+        if q < 0.2 and perm:
+            perm.pop()                                   # a field the constructor cannot set
+        elif q < 0.27:
+            perm.append(rng.randrange(nf))               # two parameters feeding one field
+        elif q < 0.32:
+            perm.append(nf)                              # a parameter feeding no field
+        return ["renamed", perm]
+    js = rng.sample(range(nf), rng.randint(1, nf))
+    return ["force", [[j, gen_val(rng, (dfl[j],))] for j in js]]
+
+
+def gen_nssub(rng, size=10):
+    ncls = rng.choice([1, 1, 2, 2, 3])
+    cl = [[gen_val(rng) for _ in range(rng.choice([1, 2, 2, 3, 4]))] for _ in range(ncls)]
+    subs = []
+    for _ in range(rng.choice([1, 2, 2, 3, 4])):
+        b = rng.randrange(ncls)
+        subs.append([b, gen_desc(rng, cl[b])])
+    case = {"type": "nssub", "cl": cl, "subs": subs, "ops": []}
+    base, descs = sub_tables(case)
+    env = [(c, list(cl[c])) for c in range(ncls)]
+    ops = case["ops"]
+    nops = rng.randint(2, size)
+    while len(ops) < nops:
+        live = [v for v, x in enumerate(env) if x is not None]
+        subl = [v for v in live if env[v][0] >= ncls]
+        r = rng.random()
+        if r < 0.3 or (not subl and r < 0.6):
+            s = rng.randrange(ncls, len(base)) if rng.random() < 0.85 else rng.randrange(len(base) + 1)
+            if s >= len(base):
+                o = {"op": "new", "s": s, "pos": [], "kw": []}
+            else:
+                c, d = base[s], descs[s]
+                dfl = cl[c]
+                nf = len(dfl)
+                if d[0] == "preset":
+                    o = {"op": "new", "s": s, "pos": [gen_val(rng)] if rng.random() < 0.07 else [],
+                         "kw": gen_kw(rng, nf, 0, None, dfl, 0.0)[:1] if rng.random() < 0.08 else []}
+                elif d[0] == "renamed":
+                    perm = d[1]
+                    nv = rng.choice(list(range(len(perm) + 1)) + [0, len(perm) + 1])
+                    pos = [gen_val(rng) for _ in range(nv)]
+                    pool = list(range(min(nv, len(perm)), len(perm)))
+                    kw = [[j, gen_val(rng)] for j in rng.sample(pool, rng.randint(0, len(pool)))]
+                    if rng.random() < 0.1:
+                        kw.append([rng.randrange(len(perm) + 2), gen_val(rng)])      # given twice / unexpected
+                    o = {"op": "new", "s": s, "pos": pos, "kw": kw}
+                else:
+                    nv = 0 if d[0] == "force" and rng.random() < 0.9 else rng.choice(list(range(nf + 1)) + [nf + 1])
+                    pos = [gen_val(rng, (dfl[j] if j < nf else None,)) for j in range(nv)]
+                    o = {"op": "new", "s": s, "pos": pos, "kw": gen_kw(rng, nf, min(nv, nf), None, dfl, 0.15)}
+        else:
+            x = rng.choice(subl) if subl and rng.random() < 0.8 else rng.choice(live) if rng.random() < 0.96 else rng.randrange(len(env) + 1)
+            xs, xf = env[x] if x < len(env) and env[x] is not None else (0, None)
+            xc = base[xs]
+            nf = len(cl[xc])
+            if r < 0.58:
+                o = {"op": "upd", "x": x, "kw": gen_kw(rng, nf, 0, xf, cl[xc], 0.15) if rng.random() < 0.95 else []}
+            elif r < 0.78:
+                m = rng.randint(xc, ncls - 1) if rng.random() < 0.9 else rng.randrange(ncls + 1)
+                o = {"op": "raupd", "x": x, "m": m,
+                     "kw": gen_kw(rng, nf, 0, xf, cl[xc], 0.15) if rng.random() < 0.95 else []}
+            else:
+                def pick():
+                    return rng.randint(xc, ncls - 1) if rng.random() < 0.85 else rng.randrange(ncls + 1)
+                route = rng.choice(HOLD_ROUTES)
+                rr = [route] if route == "pos" else [route, rng.randrange(ncls) if route in ("or", "ror") and rng.random() < 0.9 else pick()]
+                if route == "conv":
+                    rr.append(pick())
+                o = {"op": "hold", "x": x, "r": rr}
+        ops.append(o)
+        env.append(sub_sim(cl, base, descs, env, o))
+    return case
+
+
+def nssub_corpus():
+    """every constructor kind x every copying / holding route, on two field layouts; the instances
+    are made through the subclass's own constructor and then: updated (one field, all fields, no
+    field, an unknown field), updated through a set, updated twice in a row, put into sets"""
+    out = []
+    for dfl in ([["i", 50], ["b", 1]], [V_NONE, ["s", 1], ["i", 0]]):
+        nf = len(dfl)
+        cl = [dfl, [["b", 0]]]
+        kinds = [["plain"], ["preset", [[0, ["i", 95]]]], ["preset", [[j, ["i", 9]] for j in range(nf)]],
+                 ["preset", []], ["renamed", list(reversed(range(nf)))], ["renamed", [nf - 1]],
+                 ["force", [[0, ["i", 7]]]], ["force", [[nf - 1, V_NONE]]]]
+        subs = [[0, d] for d in kinds] + [[1, ["preset", [[0, ["b", 1]]]]]]
+        ops = []
+        for k, d in enumerate(kinds):
+            s = 2 + k
+            x = 2 + len(ops)
+            if d[0] == "renamed":
+                ops.append({"op": "new", "s": s, "pos": [["i", 3]], "kw": []})
+            elif d[0] == "plain":
+                ops.append({"op": "new", "s": s, "pos": [], "kw": [[1, ["i", 3]]]})
+            else:
+                ops.append({"op": "new", "s": s, "pos": [], "kw": []})
+            ops.append({"op": "upd", "x": x, "kw": [[nf - 1, ["i", 4]]]})
+            ops.append({"op": "upd", "x": x + 1, "kw": [[0, ["i", 5]]]})                 # a copy of the copy
+            ops.append({"op": "upd", "x": x, "kw": [[j, ["s", 0]] for j in range(nf)]})
+            ops.append({"op": "upd", "x": x, "kw": []})
+            ops.append({"op": "upd", "x": x, "kw": [[0, ["i", 1]], [nf, V_NONE]]})
+            ops.append({"op": "raupd", "x": x, "m": k % 2, "kw": [[0, V_NONE]]})
+            for r in (["pos"], ["or", 1], ["ror", 0], ["tora", 1], ["conv", 1, 0], ["conv", 0, 1]):
+                ops.append({"op": "hold", "x": x, "r": r})
+        x = 2 + len(ops)
+        ops.append({"op": "new", "s": 2 + len(kinds), "pos": [], "kw": []})              # a preset of the second class
+        ops.append({"op": "raupd", "x": x, "m": 0, "kw": [[0, V_NONE]]})                 # incompatible set
+        ops.append({"op": "raupd", "x": x, "m": 1, "kw": [[0, V_NONE]]})
+        ops.append({"op": "hold", "x": x, "r": ["tora", 0]})
+        ops.append({"op": "hold", "x": x, "r": ["or", 0]})
+        out.append({"type": "nssub", "cl": cl, "subs": subs, "ops": ops})
+    return out
+
+
+SUB_CORPUS = nssub_corpus()
+
+
 # ------------------------------------------------------------------ Coq encoding
 
 
@@ -846,14 +1051,56 @@ def nsprog_term(c, r):
             f"nc_fin_eq := {bmat(r['fin'])} |}}")
 
 
+def sdesc_term(d):
+    if d[0] == "plain":
+        return "DPlain"
+    if d[0] == "preset":
+        return f"(DPreset {kw_term(d[1])})"
+    if d[0] == "force":
+        return f"(DForce {kw_term(d[1])})"
+    return f"(DRenamed {core.coq_list(d[1], str)})"
+
+
+def sop_term(o):
+    k = o["op"]
+    if k == "new":
+        return f"SNew {o['s']} {vl(o['pos'])} {kw_term(o['kw'])}"
+    if k == "upd":
+        return f"SUpdate {o['x']} {kw_term(o['kw'])}"
+    if k == "raupd":
+        return f"SRaUpdate {o['x']} {o['m']} {kw_term(o['kw'])}"
+    r = o["r"]
+    rt = {"pos": "HPos", "or": "(HOr {})", "ror": "(HRor {})", "tora": "(HToRa {})", "conv": "(HConvert {} {})"}[r[0]].format(*r[1:])
+    return f"SHold {o['x']} {rt}"
+
+
+def nssub_term(c, r):
+    hmap = {}
+    prev = [d[:3] + [hmap.setdefault(d[3], len(hmap))] for d in r["init"]]
+    init = core.coq_list(prev, nsobs_term)
+    obs = []
+    for b in r["obs"]:
+        t, prev = nobs_term(b, prev, hmap)
+        obs.append(t)
+    subs = core.coq_list(c["subs"], lambda p: f"({p[0]}, {sdesc_term(p[1])})")
+    return (f"{{| sc_cl := {core.coq_list(c['cl'], vl)}; sc_subs := {subs}; "
+            f"sc_ops := {core.coq_list(c['ops'], sop_term)}; sc_init := {init}; sc_obs := {core.coq_list(obs)} |}}")
+
+
 def evaluate(cases, tag="c16", want_diag=False):
     """Returns (codes, errors, impl results, diag strings)."""
     impl = core.run_impl_parallel("impl_c16.py", cases)
     progs = [(i, prog_term(c, r)) for i, (c, r) in enumerate(zip(cases, impl)) if c["type"] == "prog"]
     metas = [(i, meta_term(c, r)) for i, (c, r) in enumerate(zip(cases, impl)) if c["type"] in ("stmt", "ctor", "rend")]
     nsps = [(i, nsprog_term(c, r)) for i, (c, r) in enumerate(zip(cases, impl)) if c["type"] == "nsprog"]
+    subs = [(i, nssub_term(c, r)) for i, (c, r) in enumerate(zip(cases, impl)) if c["type"] == "nssub"]
     codes = [0] * len(cases)
     errors = []
+    if subs:
+        bad, errs = core.coq_shards(tag + "u", SHEADER, [t for _, t in subs], "scase", "sbad cases", shard=16)
+        errors += errs
+        for idx, code in bad:
+            codes[subs[idx][0]] = code
     if nsps:
         bad, errs = core.coq_shards(tag + "n", NHEADER, [t for _, t in nsps], "ncase", "nbad cases", shard=16)
         errors += errs
@@ -871,12 +1118,14 @@ def evaluate(cases, tag="c16", want_diag=False):
             codes[metas[idx][0]] = code
     diags = {}
     if want_diag:
-        failing = sorted((i for i, _ in progs + nsps if codes[i]), key=lambda i: (codes[i] < 2, len(cases[i]["ops"])))[:6]
-        terms = dict(progs + nsps)
+        failing = sorted((i for i, _ in progs + nsps + subs if codes[i]), key=lambda i: (codes[i] < 2, len(cases[i]["ops"])))[:6]
+        terms = dict(progs + nsps + subs)
         for i in failing:
             t = terms[i]
             if codes[i]:
-                if cases[i]["type"] == "nsprog":
+                if cases[i]["type"] == "nssub":
+                    text = SHEADER + f"\nDefinition c : scase := {t}.\nSet Printing Width 100000.\nEval vm_compute in (sdiag c).\n"
+                elif cases[i]["type"] == "nsprog":
                     text = NHEADER + f"\nDefinition c : ncase := {t}.\nSet Printing Width 100000.\nEval vm_compute in (ndiag c).\n"
                 else:
                     text = HEADER + f"\nDefinition c : tcase := {t}.\nSet Printing Width 100000.\nEval vm_compute in (diag c).\n"
@@ -1036,6 +1285,122 @@ def shrink_ns(case, diag=None, rounds=25):
     return cur
 
 
+def shrink_sub(case, diag=None, rounds=25):
+    """smaller failing nssub program: cut after the first failing step, drop operations whose result
+    is unused, keywords, positional values, unused subclasses, then turn constructor kinds plain"""
+    cur = case
+    t = first_failing_step(diag)
+    if t is not None and t + 1 < len(case["ops"]):
+        c = copy.deepcopy(case)
+        c["ops"] = c["ops"][:t + 1]
+        codes, errors, _, _ = evaluate([c], tag="c16s")
+        if codes[0] >= 2 and not errors:
+            cur = c
+    for _ in range(rounds):
+        cands = [c for c in (ns_drop_op(cur, t) for t in range(len(cur["ops"]))) if c and c["ops"]]
+        for t, o in enumerate(cur["ops"]):
+            for i in range(len(o.get("kw", []))):
+                c = copy.deepcopy(cur)
+                del c["ops"][t]["kw"][i]
+                cands.append(c)
+            if o.get("pos"):
+                c = copy.deepcopy(cur)
+                c["ops"][t]["pos"].pop()
+                cands.append(c)
+        ncl = len(cur["cl"])
+        for k in range(len(cur["subs"])):                   # a subclass no operation instantiates
+            if not any(o["op"] == "new" and o["s"] == ncl + k for o in cur["ops"]):
+                c = copy.deepcopy(cur)
+                del c["subs"][k]
+                for o in c["ops"]:
+                    if o["op"] == "new" and o["s"] > ncl + k:
+                        o["s"] -= 1
+                cands.append(c)
+        for k, (b, d) in enumerate(cur["subs"]):            # a simpler constructor
+            if d[0] in ("preset", "force") and len(d[1]) > 1:
+                for i in range(len(d[1])):
+                    c = copy.deepcopy(cur)
+                    del c["subs"][k][1][1][i]
+                    cands.append(c)
+        if not cands:
+            break
+        codes, errors, _, _ = evaluate(cands, tag="c16s")
+        nxt = next((c for c, code in zip(cands, codes) if code >= 2), None)
+        if nxt is None or errors:
+            break
+        cur = nxt
+    return cur
+
+
+def describe_sub(case):
+    ncl = len(case["cl"])
+    base, descs = sub_tables(case)
+    unk = ["bogus", None, "F0", "f0_", "fields", "as_dict"]
+
+    def name(j, nf):
+        if j < nf:
+            return f"f{j}"
+        k = j - nf
+        return (unk[k] or f"f{nf}") if k < len(unk) else f"x{k}"
+
+    def kws(kw, c):
+        nf = len(case["cl"][c]) if c is not None and c < ncl else 0
+        return ", ".join(f"{name(j, nf)}={pyval(v)}" for j, v in kw)
+
+    def var(x):
+        return f"D{x}" if x < ncl else f"r{x - ncl}"
+
+    def cname(s):
+        return f"A{s}" if s < ncl else f"S{s - ncl}" if s < len(base) else "K?"
+
+    def R(m):
+        return f"R{m}"
+    cls_of = list(range(ncl))
+    out = []
+    for o in case["ops"]:
+        k = o["op"]
+        if k == "new":
+            s = o["s"]
+            c = base[s] if s < len(base) else None
+            cls_of.append(c)
+            own = s < len(base) and descs[s][0] == "renamed"
+            kw = ", ".join(f"p{j}={pyval(v)}" for j, v in o["kw"]) if own else kws(o["kw"], c)
+            out.append(f"{cname(s)}({', '.join([pyval(v) for v in o['pos']] + ([kw] if kw else []))})")
+            continue
+        c = cls_of[o["x"]] if o["x"] < len(cls_of) else None
+        cls_of.append(c)
+        rc = "R?" if c is None else f"R{c}"
+        if k == "upd":
+            out.append(f"{var(o['x'])}.update({kws(o['kw'], c)})")
+        elif k == "raupd":
+            out.append(f"RenderArgs(R{o['m']}, {var(o['x'])}).update({rc}{', ' if o['kw'] else ''}{kws(o['kw'], c)})[{rc}]")
+        else:
+            r = o["r"]
+            x = var(o["x"])
+            e = {"pos": lambda: f"(+{x})", "or": lambda: f"({x} | RenderArgs({R(r[1])}))",
+                 "ror": lambda: f"(RenderArgs({R(r[1])}) | {x})", "tora": lambda: f"{x}.to_render_args({R(r[1])})",
+                 "conv": lambda: f"RenderArgs({R(r[1])}, {x}).convert({R(r[2])})"}[r[0]]()
+            out.append(f"{e}[{rc}]")
+
+    def dsc(k, b, d):
+        nf = len(case["cl"][b])
+        if d[0] == "plain":
+            body = "pass"
+        elif d[0] == "preset":
+            body = f"def __init__(self): super().__init__({kws(d[1], b)})"
+        elif d[0] == "force":
+            body = f"def __init__(self, **fields): super().__init__(**{{**fields, **dict({kws(d[1], b)})}})"
+        else:
+            ps = ", ".join(f"p{j}=MISSING" for j in range(len(d[1])))
+            body = (f"def __init__(self{', ' if ps else ''}{ps}): super().__init__(<"
+                    + ", ".join(f"{name(f, nf)}=p{j}" for j, f in enumerate(d[1])) + " for the parameters given>)")
+        return f"class S{k}(A{b}): {body}"
+    classes = "; ".join(f"A{c}({', '.join(f'f{j}={pyval(v)}' for j, v in enumerate(d))}) for R{c}" for c, d in enumerate(case["cl"]))
+    subs = "; ".join(dsc(k, b, d) for k, (b, d) in enumerate(case["subs"]))
+    return (f"namespace classes [{classes}] (R0 <- R1 <- ..; D<c> = the shared default instance of A<c>, "
+            f"r<t> = result of operation t) subclasses [{subs}] ops=[{'; '.join(out)}]")
+
+
 PYVAL = {"n": "None", "e": "...", "t": "()"}
 
 
@@ -1094,6 +1459,8 @@ def describe_ns(case):
 
 
 def describe(case):
+    if case["type"] == "nssub":
+        return describe_sub(case)
     if case["type"] == "nsprog":
         return describe_ns(case)
     if case["type"] != "prog":
@@ -1141,7 +1508,7 @@ def run(ctx):
         ncorpus = 0
     else:
         np_, ns_, nct, nr, nnp = (300, 260, 160, 40, 160) if ctx.quick else (6000, 3000, 1500, 200, 4000)
-        corpus = list(CORPUS) + list(STMT_CORPUS) + list(NS_CORPUS)
+        corpus = list(CORPUS) + list(STMT_CORPUS) + list(NS_CORPUS) + list(SUB_CORPUS)
         ncorpus = len(corpus)
         cases = corpus + [gen_prog(rng, 30 if i % 3 else 8) for i in range(np_)]
         cases += [gen_stmt(rng) for _ in range(ns_)] + [gen_ctor(rng) for _ in range(nct)]
@@ -1150,6 +1517,8 @@ def run(ctx):
         import random
         nrng = random.Random(rng.getrandbits(64))
         cases += [gen_nsprog(nrng, 12 if i % 4 else 4) for i in range(nnp)]
+        srng = random.Random(nrng.getrandbits(64) ^ 0x5B)
+        cases += [gen_nssub(srng, 10 if i % 4 else 4) for i in range(120 if ctx.quick else 3000)]
     codes, errors, impl, diags = evaluate(cases, want_diag=True)
     hist = {"case_types": {}, "classes": {}, "ops_len": {}, "op_kinds": {}, "op_outcomes": {},
             "results_aliasing_an_existing_object": 0, "results_new_object": 0,
@@ -1171,9 +1540,13 @@ def run(ctx):
                        "known_field_values_given_by_kind": {},
                        "known_field_given_its_current_value": 0,
                        "equal_instance_pairs": 0, "equal_instance_pairs_with_values_of_different_types": 0,
-                       "instances_holding_a_nan_like_value": 0, "update_without_fields": 0}}
+                       "instances_holding_a_nan_like_value": 0, "update_without_fields": 0},
+            "nssub": {"subclass_kinds": {}, "op_kinds": {}, "op_outcomes": {}, "ops_len": {},
+                      "constructed_by_kind": {}, "copying_route_by_kind_of_operand_class": {},
+                      "copies_made_by_update_by_kind": {}, "copies_of_copies": 0}}
     distinct = set()
     ndistinct = set()
+    sdistinct = set()
 
     def bump(d, k):
         d[k] = d.get(k, 0) + 1
@@ -1274,6 +1647,43 @@ def run(ctx):
             # non-trivial: some call carries an unknown keyword and some call is accepted
             if interesting and any(b["res"] >= len(cl) for b in r["obs"]):
                 ndistinct.add(core.sig(c))
+        elif c["type"] == "nssub":
+            sh = hist["nssub"]
+            ncl = len(c["cl"])
+            sbase, sdescs = sub_tables(c)
+            for _, d in c["subs"]:
+                bump(sh["subclass_kinds"], d[0])
+            bump(sh["ops_len"], min(len(c["ops"]) // 4 * 4, 40))
+            kind_of = ["plain-associated"] * ncl      # constructor kind of the class of each env entry
+            copy_of = [False] * ncl
+            copied = set()
+            for o, b in zip(c["ops"], r["obs"]):
+                k = o["op"]
+                bump(sh["op_kinds"], k if k != "hold" else "hold:" + o["r"][0])
+                bump(sh["op_outcomes"], "ok" if b["res"] >= 0 else f"err{-1 - b['res']}")
+                ok = b["res"] >= 0
+                if k == "new":
+                    kd = sdescs[o["s"]][0] if o["s"] < len(sdescs) else None
+                    if o["s"] < ncl:
+                        kd = "plain-associated"
+                    kind_of.append(kd if ok else None)
+                    copy_of.append(False)
+                    if ok:
+                        bump(sh["constructed_by_kind"], kd)
+                    continue
+                xk = kind_of[o["x"]] if o["x"] < len(kind_of) else None
+                kind_of.append(xk if ok else None)
+                newobj = ok and k in ("upd", "raupd") and o["kw"]
+                copy_of.append(bool(newobj))
+                if xk is not None:
+                    bump(sh["copying_route_by_kind_of_operand_class"], f"{k if k != 'hold' else o['r'][0]}:{xk}")
+                    if newobj:
+                        bump(sh["copies_made_by_update_by_kind"], xk)
+                        copied.add(xk)
+                        sh["copies_of_copies"] += bool(copy_of[o["x"]])
+            # non-trivial: an update made a copy of an instance of a class with its OWN constructor
+            if copied - {"plain", "plain-associated"}:
+                sdistinct.add(core.sig(c))
         elif c["type"] == "stmt":
             bump(hist["stmt_outcomes"], r["code"])
         elif c["type"] == "ctor":
@@ -1290,12 +1700,16 @@ def run(ctx):
         if code >= 2:
             small = c
             if not failures and not ctx.replay:
-                small = shrink(c, diags.get(i)) if c["type"] == "prog" else shrink_ns(c, diags.get(i)) if c["type"] == "nsprog" else c
+                small = (shrink(c, diags.get(i)) if c["type"] == "prog" else shrink_ns(c, diags.get(i)) if c["type"] == "nsprog"
+                         else shrink_sub(c, diags.get(i)) if c["type"] == "nssub" else c)
             codes2, _, impl2, diags2 = evaluate([small], tag="c16r", want_diag=True)
             what = ("render-argument program violates the documented rule "
                     if c["type"] == "prog" else
                     "namespace program (constructor / update / RenderArgs.update over the value universe) violates the documented rule "
                     if c["type"] == "nsprog" else
+                    "program over namespace SUBCLASSES with their own constructor (update / RenderArgs.update / | / + / convert / "
+                    "to_render_args must copy or hold the instance by its FIELDS and keep its class) violates the documented rule "
+                    if c["type"] == "nssub" else
                     "namespace/render class statement decided against the documented table ")
             what += f"(failing step/sub-check: {diags2.get(0, '')}): {describe(small)}"
             failures.append({"signature": core.sig(canon(small)), "what": what,
@@ -1312,7 +1726,7 @@ def run(ctx):
                      "RArgsVal.nstep_op (heap of namespace instances) and RArgsVal.spec_nop (field-by-field rule) == real "
                      "ArgsNamespace constructor / update / RenderArgs.update / attribute reads over the value universe",
         "evaluations": len(cases),
-        "distinct_nontrivial": len(distinct) + len(ndistinct),
+        "distinct_nontrivial": len(distinct) + len(ndistinct) + len(sdistinct),
         "rule": "corpus + generated programs: forest of 2-8 render classes (depth <= 4, branching <= 3, chains / bushy / random), "
                 "45-85% of classes with an Args namespace of 1-3 int fields and, in 60% of the forests with an inner class, a forced "
                 "GAP pattern A(args) <- B(no Args of its own) [<- C(args)]; 0-3 SUBCLASSES of every namespace class (child, "
@@ -1342,7 +1756,8 @@ def run(ctx):
                    + [describe(c) for c in cases if c["type"] == "nsprog"][len(NS_CORPUS):len(NS_CORPUS) + 2],
         "histogram": hist,
         "extra": {"failing_cases_total": nfail, "nonzero_cases_total": len(order),
-                  "distinct_nontrivial_set_programs": len(distinct), "distinct_nontrivial_namespace_programs": len(ndistinct)},
+                  "distinct_nontrivial_set_programs": len(distinct), "distinct_nontrivial_namespace_programs": len(ndistinct),
+                  "distinct_nontrivial_subclass_constructor_programs": len(sdistinct)},
         "mismatches": mismatches,
         "failures": failures,
         "errors": errors,
